@@ -23,3 +23,5 @@ import ZckModel.Copy
 import ZckModel.Pred.Copy
 import ZckModel.IoFault
 import ZckModel.Threads
+import ZckModel.Dl
+import ZckModel.Pred.Dl
